@@ -149,6 +149,14 @@ def random_space_intervals(rng, fx, n):
         lvl = rng.randint(0, 3)
         k = rng.randrange(2**lvl)
         out.append((fx.starts[i] + L * F(k, 2**lvl), fx.starts[i] + L * F(k + 1, 2**lvl)))
+    # always include intervals at the two ends of the parametrisation (seam of a closed curve) and a corner pair
+    l0, l1 = rng.randint(0, 2), rng.randint(0, 2)
+    L0, L1 = fx.starts[1] - fx.starts[0], fx.starts[-1] - fx.starts[-2]
+    out.append((fx.starts[0], fx.starts[0] + L0 / 2**l0))
+    out.append((fx.starts[-1] - L1 / 2**l1, fx.starts[-1]))
+    if len(fx.starts) > 2:
+        out.append((fx.starts[1] - L0 / 2**l1, fx.starts[1]))
+        out.append((fx.starts[1], fx.starts[1] + (fx.starts[2] - fx.starts[1]) / 2**l0))
     return out
 
 
